@@ -480,6 +480,17 @@ def configs(tier, seed):
         cs += [dict(base, blob='int', n_batch=1, n_live=30, n_update=8, n_eff=80), dict(base, family='funnel', n_dim=3, n_live=100, n_batch=50, blob='vec1'),
                dict(base, n_networks=2, n_live=100, n_dim=4, blob='none'), dict(base, family='plateau', blob='float', discard_at_end=True),
                dict(base, periodic=[0, 1], family='periodic', n_dim=2, n_networks=1, toggles=2), dict(base, n_live=12, n_update=1, n_batch=3, blob='two', discard_at_end=False, n_shell=5, n_eff=100, family='twomode')]
+    # random tiny configurations (they sit on many guards at once): two in the quick tier, sixteen in the thorough tier
+    for i in range(2 if tier == 'quick' else 16):
+        r = np.random.default_rng([seed, 700 + i])
+        fam = ['gauss', 'twomode', 'halfspace', 'funnel', 'plateau', 'periodic', 'constant'][int(r.integers(0, 7))]
+        c = dict(base, family=fam, n_dim=int(r.choice([2, 3])), n_live=int(r.choice([6, 10, 16, 30])), n_batch=int(r.choice([1, 2, 4, 8])), n_update=int(r.choice([1, 2, 6])),
+                 blob=str(r.choice(['none', 'float', 'two', 'vec3', 'int'])), seed=int(r.integers(1, 10 ** 6)), n_shell=int(r.choice([1, 4, 12])), n_eff=int(r.choice([30, 80])),
+                 max_boundaries=120 if tier == 'quick' else 400, discard_at_end=bool(r.random() < 0.5), toggles=int(r.choice([0, 0, 2])), vectorized=bool(r.random() < 0.3),
+                 prior_object=bool(r.random() < 0.2), periodic=[0] if fam == 'periodic' else ([1] if r.random() < 0.2 else None))
+        if fam == 'constant':
+            c['n_eff'] = 30
+        cs.append(c)
     return cs
 
 
